@@ -281,7 +281,14 @@ func (i *interpreter) fileWrite(h *fileHandle, data value) value {
 	}
 	// content[:pos] ++ data ++ content[pos+n:] (if any)
 	if !i.branch(p.mkIntCmp("<=", h.pos, size)) {
-		unsup("write beyond end of file (sparse file)")
+		// writing beyond the end: the gap reads as zero bytes
+		gap := p.mkSub(h.pos, size)
+		z := p.freshVar("gap", SStr)
+		p.pc = append(p.pc, "(= (str.len "+z.e+") "+tInt(gap)+")")
+		z.ln = gap
+		p.classCons = append(p.classCons, classCon{z, "(re.* (str.to_re \"\\u{0}\"))", "zeros"})
+		t.content = i.compact(mkConcat(t.content, z))
+		size = h.pos
 	}
 	pre := p.mkSubstr(t.content, int64(0), h.pos)
 	end := p.mkAdd(h.pos, n)
